@@ -137,7 +137,8 @@ def finalOffsets (u : UF) : Option (List Int) :=
 /-- `out = phi.flatten() + 2*pi*incs;  out -= out.mean()` (the mean is over ALL `N` pixels,
 masked-out ones included) -/
 def assemble (half : R) (N : Nat) (phi : Nat → R) (incs : List Int) : List R :=
-  let out := (List.range N).map fun i => phi i + Num.two * half * Num.ofInt (incs.getD i 0)
+  let a := incs.toArray
+  let out := (List.range N).map fun i => phi i + Num.two * half * Num.ofInt (a.getD i 0)
   let mean := Num.sum out / Num.ofNat N
   out.map (· - mean)
 
@@ -156,6 +157,75 @@ order made explicit: `order` is the list of masked pixel pairs in the order the 
 them (specification: a permutation of `maskedPairs H W mask wrap`). -/
 def unwrapPhase2d (half : R) (H W : Nat) (phi : Nat → R) (order : List (Nat × Nat)) : Option (List R) :=
   unwrapSorted half (H * W) phi (edgesOfPairs half phi order)
+
+/-! ### `_pixel_reliability` and the sort
+
+The reliability only decides the ORDER of the merges.  It is modelled exactly so that the order
+can be compared with the code; no theorem depends on it (`unwrap_correct_any_sort`). -/
+
+/-- `_wrap_to_pi(x) = (x + pi) % (2*pi) - pi` at `Rat` in units of π (Python's float `%` with a
+positive modulus is floor-mod: the result lies in `[-1, 1)`) -/
+def wrapToPiRat (x : Rat) : Rat := (x + 1) - 2 * ((((x + 1) / 2).floor : Int) : Rat) - 1
+
+/-- `_pixel_reliability(phi, mask)`: squared wrapped second differences along the row, the column
+and the two diagonals.  `wrapf` is `_wrap_to_pi` in the carrier.  All eight neighbours come from
+`torch.roll`, i.e. they are PERIODIC neighbours whatever `wrap_around` is.  Masked-out pixels get
+`inf` (`none`); they never enter an edge.
+```
+left = roll(c, 1, 1); right = roll(c, -1, 1); up = roll(c, 1, 0); down = roll(c, -1, 0)
+ul = roll(left, 1, 0); dr = roll(right, -1, 0); ur = roll(right, 1, 0); dl = roll(left, -1, 0)
+H = W(left - c) - W(c - right) … R = H**2 + V**2 + D1**2 + D2**2
+``` -/
+def pixelReliability (wrapf : R → R) (H W : Nat) (phi : Nat → R) (mask : Nat → Bool) : Nat → Option R :=
+  fun i =>
+    if !mask i then none else
+    let r := i / W
+    let c := i % W
+    let rm := (r + H - 1) % H      -- row of `up`     (roll by +1 along axis 0)
+    let rp := (r + 1) % H          -- row of `down`   (roll by -1)
+    let cm := (c + W - 1) % W      -- column of `left`
+    let cp := (c + 1) % W          -- column of `right`
+    let v (rr cc : Nat) : R := phi (rr * W + cc)
+    let x := v r c
+    let hterm := wrapf (v r cm - x) - wrapf (x - v r cp)
+    let vterm := wrapf (v rm c - x) - wrapf (x - v rp c)
+    let d1 := wrapf (v rm cm - x) - wrapf (x - v rp cp)
+    let d2 := wrapf (v rm cp - x) - wrapf (x - v rp cm)
+    some (Num.sq hterm + Num.sq vterm + Num.sq d1 + Num.sq d2)
+
+/-- `rel = rel_f[i1] + rel_f[i2]` (`none` = `inf`) -/
+def edgeRel (rel : Nat → Option R) (p : Nat × Nat) : Option R :=
+  match rel p.1, rel p.2 with
+  | some a, some b => some (a + b)
+  | _, _ => none
+
+/-- `≤` on reliabilities with `none` = `+inf` -/
+def relLe : Option R → Option R → Bool
+  | some a, some b => Num.leb a b
+  | _, none => true
+  | none, some _ => false
+
+/-- `edges[rel.argsort()]`: ascending in `rel`.  `argsort` is not stable, so ties may come out in
+any order in the code; the model's (stable) merge sort is ONE admissible outcome. -/
+def sortPairs (le : Nat × Nat → Nat × Nat → Bool) (pairs : List (Nat × Nat)) : List (Nat × Nat) :=
+  pairs.mergeSort le
+
+def sortedPairs (wrapf : R → R) (H W : Nat) (phi : Nat → R) (mask : Nat → Bool) (wrap : Bool) :
+    List (Nat × Nat) :=
+  let rel := pixelReliability wrapf H W phi mask
+  sortPairs (fun p q => relLe (edgeRel rel p) (edgeRel rel q)) (maskedPairs H W mask wrap)
+
+/-- is `order` ascending in the model's edge reliability (ties in any order)? -/
+def ascendingIn (rel : Nat → Option R) : List (Nat × Nat) → Bool
+  | [] => true
+  | [_] => true
+  | p :: q :: rest => relLe (edgeRel rel p) (edgeRel rel q) && ascendingIn rel (q :: rest)
+
+/-- the whole of `_unwrap_phase_2d_torch_reliability_sorting` with nothing left as an input:
+reliability, sort, unions, offsets, assembly -/
+def unwrapReliability (half : R) (wrapf : R → R) (H W : Nat) (phi : Nat → R) (mask : Nat → Bool)
+    (wrap : Bool) : Option (List R) :=
+  unwrapPhase2d half H W phi (sortedPairs wrapf H W phi mask wrap)
 
 /-! ### `unwrap_bf_overlap_phase_torch` -/
 
@@ -224,5 +294,19 @@ def unwrapBfOverlap (half : R) (H W : Nat) (bfMask : Nat → Bool) (maskBf : Lis
       twoPass order1 order2 with
   | none => none
   | some (br, g) => some (br, pos.map g)
+
+/-- one image handed to `unwrap_bf_overlap_phase_torch` by its caller -/
+structure BfImage (R : Type) where
+  maskBf : List Bool
+  phaseBf : List R
+  order1 : List (Nat × Nat)
+  order2 : List (Nat × Nat)
+
+/-- the caller's loop (direct_ptychography.py):
+`for j in range(N_q): out[:, j] = unwrap_bf_overlap_phase_torch(data[:, j], mask[:, j], bf_mask, two_pass=…)`
+— every image goes through the same `bf_mask`, nothing is shared between images -/
+def unwrapBfStack (half : R) (H W : Nat) (bfMask : Nat → Bool) (twoPass : Bool)
+    (imgs : List (BfImage R)) : List (Option (BfBranch × List R)) :=
+  imgs.map fun im => unwrapBfOverlap half H W bfMask im.maskBf im.phaseBf twoPass im.order1 im.order2
 
 end QuantemModel.Unwrap
